@@ -165,7 +165,7 @@ class Program(object):
 CMDS = ['fail', 'succeed', 'noop']
 
 
-def gen_direct(rnd, n=None, partial_joins=True, p_publish=0.0, p_sub=0.0, p_items=0.0, p_retry=0.0, p_policy=0.0, p_join=0.9, p_join1=0.2, p_err=0.3, p_guard=0.3, p_cmd=0.15, p_comp=0.2, allow_cmd=True, max_out=2, p_pause=0.0, cmds=None):
+def gen_direct(rnd, n=None, partial_joins=True, p_publish=0.0, p_sub=0.0, p_items=0.0, p_retry=0.0, p_policy=0.0, p_join=0.9, p_join1=0.2, p_err=0.3, p_guard=0.3, p_cmd=0.15, p_comp=0.2, allow_cmd=True, max_out=2, p_pause=0.0, cmds=None, policy_on_joins=1.0):
     """Random direct DAG: edges go forward in the task order; a task with >= 2 inbound edges is a
     join (all / one / N) with probability p_join (otherwise it runs once per trigger)."""
     P = Program()
@@ -257,7 +257,7 @@ def gen_direct(rnd, n=None, partial_joins=True, p_publish=0.0, p_sub=0.0, p_item
                 d['concurrency'] = rnd.randint(1, max(1, n_it + 1))
             P.oracle[t] = {i: [rnd.choices(['ok', 'err'], [0.8, 0.2])[0]] for i in range(n_it)}
             P.flags['items'] = True
-        elif r < p_sub + p_items + p_retry:
+        elif r < p_sub + p_items + p_retry and (not d.get('join') or rnd.random() < policy_on_joins):
             c = rnd.randint(1, 2)
             d['retry'] = {'count': c, 'delay': rnd.choice([0, 1])}
             P.oracle[t] = [rnd.choice(['ok', 'err']) for _ in range(c + 1)]
@@ -266,7 +266,7 @@ def gen_direct(rnd, n=None, partial_joins=True, p_publish=0.0, p_sub=0.0, p_item
             # each task publishes its own variable (no two publishers of one variable: conflict-free class)
             d['publish'] = {'v_%s' % t: '<% task().result %>', 'k_%s' % t: 'lit:%s' % t}
             P.flags['publish'] = True
-        if rnd.random() < p_policy:
+        if rnd.random() < p_policy and (not d.get('join') or rnd.random() < policy_on_joins):
             pol = rnd.choice(['wait-before', 'wait-after', 'timeout', 'timeout', 'fail-on'])
             if pol == 'fail-on':
                 d['fail-on'] = True
